@@ -87,6 +87,63 @@ def map_inserts(body, raw_operand):
     return out
 
 
+class _AfterLoop:
+    """Stands for `the point where the loop over the literal pairs has finished` as the site of the inserts it makes."""
+    def __init__(self, call, bb):
+        self.fn, self.fnx, self.res, self.sp, self.body, self.bb, self.args, self.dest, self.exp = call.fn, call.fnx, call.res, call.sp, call.body, bb, call.args, call.dest, call.exp
+        self._call = call
+
+    def arg(self, i):
+        return self._call.arg(i)
+
+    def arg_exprs(self):
+        return self._call.arg_exprs()
+
+    def from_macro(self):
+        return False
+
+
+def _insert_over_literal_pairs(body, c):
+    NEXT = "core::iter::traits::iterator::Iterator::next"
+    nx = [y[1] for y in walk(c.arg(1)) if y[0] == "call" and y[1].fn == NEXT]
+    if len(nx) != 1 or nx[0].body is not body:
+        return None
+    n = nx[0]
+    arr = None
+    for y in walk(n.arg(0)):
+        if y[0] == "agg" and y[1].get("agg") == "array" and y[2] and all(strip(t)[0] == "agg" and strip(t)[1].get("agg") == "tuple" and len(strip(t)[2]) == 2 for t in y[2]):
+            arr = y
+    if arr is None:
+        return None
+    some_e, none_e = [], []
+    for bb, si in body.switches():
+        cnd = strip(si["cond"])
+        if si["kind"] == "variant" and cnd[0] == "call" and q.same_call(cnd[1], n):
+            some_e += q.edge_triples(body, bb, lambda m: m == "Some")
+            none_e += q.edge_triples(body, bb, lambda m: m == "None" or (isinstance(m, tuple) and "None" in m))
+    if not some_e or len(none_e) != 1:
+        return None
+    inside = body.reachable_blocks([t for (_, t, _) in some_e], removed_blocks=[n.bb])
+    if none_e[0][1] in inside or any(r in inside for r in body.return_blocks()) or c.bb not in inside:
+        return None      # the loop body can be left other than through the next step: not every pair is written
+    if not q.dominated(body, n.bb, via_blocks=[c.bb]) and body.reachable_blocks([t for (_, t, _) in some_e], removed_blocks=[n.bb, c.bb]) & {n.bb}:
+        pass
+    skip = body.reachable_blocks([t for (_, t, _) in some_e], removed_blocks=[c.bb])
+    if n.bb in skip:
+        return None      # a pair can go round without being inserted
+    shim = _AfterLoop(c, none_e[0][1])
+    out = []
+    for t in arr[2]:
+        tt = strip(t)
+        ks = q.const_strs(tt[2][0])
+        if not ks:
+            return None
+        val = tt[2][1]
+        # the value stored is `wrap(v)` of the pair's second component (e.g. Value::String(v)): keep the wrapper, substitute the component
+        out.append((ks[0], val, c.arg(0), shim))
+    return out
+
+
 def map_writes(body):
     """[(key, value_expr, receiver_expr, call)] for every live write of a constant key into a serde_json Map in this body:
     `m.insert("k", v)`, and `m.extend(src)` where src is (a clone of) `Map::from_iter([("k", v), ..])`."""
@@ -96,7 +153,12 @@ def map_writes(body):
             continue
         if c.fn.startswith("serde_json::map::Map") and c.fn.endswith("::insert"):
             keys = q.const_strs(c.arg(1))
-            if keys:
+            looped = _insert_over_literal_pairs(body, c)
+            if looped:
+                # `for (k, v) in [("a", x), ("b", y)] { m.insert(k.to_string(), v) }`: one write per pair, all of them done when the
+                # loop is left (it has no other way out)
+                out += looped
+            elif keys:
                 out.append((keys[0], c.arg(2), c.arg(0), c))
         elif c.fn == "core::iter::traits::collect::Extend::extend" and (c.res or "").startswith("<serde_json::map::Map<"):
             src = strip(c.arg(1))
@@ -130,15 +192,23 @@ def map_writes(body):
 def meta_keys(body, meta_expr):
     """{key: value_expr} for a meta argument built with json!({..}); None if it is not a json! object."""
     x = q.peel(meta_expr)
-    if x[0] == "agg" and x[1].get("adt") == "serde_json::value::Value" and x[1].get("variant") == "Object":
-        ins = map_inserts(body, x[1]["ops"][0])
+    n_ = 0
+    while x[0] == "call" and x[1].fn.endswith("Clone>::clone") and x[2] and n_ < 3:
+        x = q.peel(x[2][0])
+        n_ += 1
+    is_obj = x[0] == "agg" and x[1].get("adt") == "serde_json::value::Value" and x[1].get("variant") == "Object"
+    # a Value that came from elsewhere (a configured base meta, `unwrap_or_else(|| json!({}))`) and gets its stamps afterwards
+    # through `meta["key"] = ..`: the keys assigned that way are known (and override whatever the base carried)
+    from_call = x[0] == "call" and "serde_json::value::Value" in (x[1].fnx or "") and not x[1].dest["p"]
+    if is_obj or from_call:
+        ins = map_inserts(body, x[1]["ops"][0]) if is_obj else []
         out = {k: v for (k, v, c) in ins if k is not None}
         # `let mut meta = json!({..}); meta["error"] = v;` - keys added afterwards through IndexMut (only the live ones count:
         # a key set under `if let Some(e) = error` is there exactly on the paths where that arm is feasible)
-        home = None
+        home = x[1].dest["l"] if from_call and not is_obj else None
         for bi, b in enumerate(body.blocks):
             for st in b["stmts"]:
-                if st["k"] == "assign" and st["rv"] is x[1] and not st["lhs"]["p"]:
+                if is_obj and st["k"] == "assign" and st["rv"] is x[1] and not st["lhs"]["p"]:
                     home = st["lhs"]["l"]
         if home is not None:
             same = q.move_aliases(body, home)
@@ -273,6 +343,9 @@ def json_src(e):
             continue
         if x[0] == "call" and x[1].fn.endswith("::to_string") and x[2]:
             x = q.peel(x[2][0])
+            continue
+        if x[0] == "agg" and x[1].get("adt") == "serde_json::value::Value" and x[1].get("variant") in ("String", "Number", "Bool") and len(x[2]) == 1:
+            x = q.peel(x[2][0])      # `Value::String(id.to_string())` written directly (e.g. through `meta["k"] = ..`)
             continue
         break
     return x
